@@ -84,6 +84,12 @@ pub struct Profile {
     /// values that reduce to 0, 1 or p-1 under some curve (totality checks only — the checks that
     /// interpret programs keep literals below the prime, see DESIGN.md §6)
     pub literals_beyond_prime: bool,
+    /// locals may be read wherever they are declared, assigned on that path or not (only for checks that
+    /// judge whatever the tool makes of such a program, never for the interpreting ones)
+    pub reads_any_declared: bool,
+    /// the dimension of a local array may be `len + (x & 3)` for a scalar local or parameter x
+    /// (the array is indexed below `len` only; its dimension is an effect of its own, C09)
+    pub dynamic_dims: bool,
 }
 
 #[derive(Clone, Debug)]
@@ -131,6 +137,8 @@ impl Profile {
             all_compound_ops: false,
             port_arrays: false,
             literals_beyond_prime: false,
+            reads_any_declared: false,
+            dynamic_dims: false,
         }
     }
     pub fn sem(template: bool, prime: BigUint) -> Profile {
@@ -169,6 +177,8 @@ impl Profile {
             all_compound_ops: false,
             port_arrays: false,
             literals_beyond_prime: false,
+            reads_any_declared: false,
+            dynamic_dims: false,
         }
     }
 }
@@ -407,7 +417,7 @@ impl<'a, 'b> Gen<'a, 'b> {
             return false;
         }
         match &v.ty {
-            Ty::Var | Ty::VarArr(_) => self.assigned.contains(&v.key),
+            Ty::Var | Ty::VarArr(_) => self.assigned.contains(&v.key) || self.p.reads_any_declared,
             Ty::Sig(SigKind::Input) | Ty::SigArr(SigKind::Input, _) => {
                 !self.control_ctx || self.p.signal_conditions
             }
@@ -634,7 +644,25 @@ impl<'a, 'b> Gen<'a, 'b> {
             // initialiser, so the initialiser already sees the new variable.
             let (dims, init) = if arr {
                 let len = 1 + self.t.below(4);
-                let dim = self.small_literal(len as u64);
+                let mut dim = self.small_literal(len as u64);
+                if self.p.dynamic_dims && self.t.chance(100) {
+                    let saved = self.control_ctx;
+                    self.control_ctx = true;
+                    let scalars: Vec<VarInfo> =
+                        self.visible().into_iter().filter(|v| v.ty == Ty::Var && v.name != name && self.readable(v)).collect();
+                    self.control_ctx = saved;
+                    if !scalars.is_empty() {
+                        let x = scalars[self.t.below(scalars.len())].clone();
+                        let three = self.small_literal(3);
+                        let masked = Expr::Infix {
+                            id: self.ids.next(),
+                            op: Op::BitAnd,
+                            l: Box::new(Expr::Var { id: self.ids.next(), name: x.name, access: vec![] }),
+                            r: Box::new(three),
+                        };
+                        dim = Expr::Infix { id: self.ids.next(), op: Op::Add, l: Box::new(dim), r: Box::new(masked) };
+                    }
+                }
                 let key = self.declare(&name, Ty::VarArr(len), None, false);
                 let init = if self.p.uninit_decl && self.t.chance(40) {
                     None
